@@ -18,7 +18,12 @@ CHECK = {'level': 'model_checking',
          'configuration, canonical state). P (keysutil.Policy directly): 4 AEAD types x {not derived, counter KDF, HKDF, '
          'HKDF+convergent} x 2 version templates, all histories to depth 2/3 over {rotate, min_decryption 1..3, '
          'min_encryption 0|2|3} from a key with 1 and with 3 versions, caller-supplied nonces, same battery, plus the '
-         'same records against the policy reloaded from storage',
+         'same records against the policy reloaded from storage. S (real Core, transit mounted, key cache empty after '
+         'a start; transactional and plain storage): one of {raise min_decryption_version, raise '
+         'min_encryption_version, rotate} racing one of {decrypt an old ciphertext, encrypt, encrypt under an older '
+         'version, read, rotate, config} under every interleaving at storage-operation + contended-lock granularity up '
+         'to the preemption bound: acknowledged management calls are in effect, ciphertexts handed out decrypt now and '
+         'after a restart, the running node and the restarted one report the same key',
  'assumptions': ['acceptance of configuration requests is not specified by the property: only rejected=>unchanged, '
                  'accepted=>requested value in effect and the documented window invariants are demanded',
                  'a context is a bound input only for derived keys; vault:v0: is the legacy spelling of version 1; '
@@ -40,9 +45,16 @@ CHECK = {'level': 'model_checking',
             'run': '^TestVerifC17P$',
             'gomaxprocs': 2,
             'shards': {'quick': 16, 'thorough': 16},
-            'timeout': {'quick': 600, 'thorough': 1200}}]}
+            'timeout': {'quick': 600, 'thorough': 1200}},
+           {'name': 'sched',
+            'pkg': './internal/verifh/core',
+            'run': '^TestVerifC17S$',
+            'rewrite': SYNC_RW,
+            'gomaxprocs': 2,
+            'shards': {'quick': 16, 'thorough': 16},
+            'timeout': {'quick': 600, 'thorough': 2400}}]}
 
-META = {'engines': 'E0 E3',
+META = {'engines': 'E0 E1 E2 E3',
  'technique': 'explicit-state BFS over key-management histories on the real transit backend with an exhaustive '
               'input/mutation battery in every state, against a reference model of key identities and version window',
  'text': 'Round-trip, input binding and the version window are properties of (inputs x histories): every bounded '
